@@ -137,6 +137,8 @@ def judge_step(kind, k, r, S, ref, v, ctx, B):
         if T.pc[js] in B:
             why = 'skipped-row-has-a-user-breakpoint'
         detail['skipped_row'] = hex(T.pc[js])
+        if why == 'skipped-row-has-a-user-breakpoint':
+            jkind = 'any'
         v.violation(f'c03:{kind}:skipped-a-line:{why}:{jkind}',
                     'the step ran past the first statement boundary of a different line reached in the current activation', detail)
         return k2
